@@ -69,7 +69,7 @@ package nfs
 //@ define TXALLOC fstxn.FsTxn, alloctxn.AllocTxn, jrnl.Op, []uint64, map[uint64]*inode.Inode, cache.Cslot, inode.Inode, buf.Buf, marshal.Dec, marshal.Enc, cell:uint64, []uint8, addr.Addr
 //@ define TXMODS held, lastst, curop, freshinum, wroteinum, cphase, abits, dirtyinum, cache.Cslot.Obj, map[uint64]*inode.Inode
 //@ define SHRINKMODS muheld, inode.Inode.ShrinkSize, []uint64@inode.Inode.blks, []uint64@alloctxn.AllocTxn.freeBnums, alloctxn.AllocTxn.freeBnums, buf.Buf.dirty, []uint8@buf.Buf.Data, zeroed
-//@ define FILEMODS tailzeroedto, inode.Inode.Size, inode.Inode.ShrinkSize, inode.Inode.Atime, inode.Inode.Mtime, inode.Inode.Kind, inode.Inode.Nlink, inode.Inode.Gen, inode.Inode.Inum, inode.Inode.Dcache, []uint64@inode.Inode.blks, alloctxn.AllocTxn.allocBnums, []uint64@alloctxn.AllocTxn.allocBnums, alloctxn.AllocTxn.freeBnums, []uint64@alloctxn.AllocTxn.freeBnums, alloctxn.AllocTxn.allocInums, []uint64@alloctxn.AllocTxn.allocInums, alloctxn.AllocTxn.freeInums, []uint64@alloctxn.AllocTxn.freeInums, buf.Buf.dirty, []uint8@buf.Buf.Data, zeroed
+//@ define FILEMODS tailzeroedto, inode.Inode.Size, inode.Inode.ShrinkSize, inode.Inode.Atime, inode.Inode.Mtime, inode.Inode.Kind, inode.Inode.Nlink, inode.Inode.Gen, inode.Inode.Inum, inode.Inode.Dcache, []uint64@inode.Inode.blks, alloctxn.AllocTxn.allocBnums, []uint64@alloctxn.AllocTxn.allocBnums, alloctxn.AllocTxn.freeBnums, []uint64@alloctxn.AllocTxn.freeBnums, alloctxn.AllocTxn.allocInums, []uint64@alloctxn.AllocTxn.allocInums, alloctxn.AllocTxn.freeInums, []uint64@alloctxn.AllocTxn.freeInums, buf.Buf.dirty, []uint8@buf.Buf.Data, zeroed, nldec
 //@ define DIRMODS emptychecked, dcache.Dcache.Lastoff, nfstypes.Entry3, cell:*nfstypes.Entry3, nfstypes.Entryplus3, cell:*nfstypes.Entryplus3, map[string]dcache.Dentry, emitted, emitany, emitlast, lastcookie, lastfileid, lastname, lasthino, lasthgen, lastattrid
 //@ define DIRALLOC dir.dirEnt, dcache.Dcache, map[string]dcache.Dentry, nfstypes.Entry3, nfstypes.Entryplus3
 // a transaction that may be ended either way: open, and every held inode is in sync with it
@@ -333,8 +333,9 @@ package nfs
 //@   requires nfsInv(nfs) && txOpen(op) && !muheld[base(nfs.shrinkst.mu)]
 //@   requires locked(ip) && inodeInv(ip) && validInum(ip.Inum)
 //@   requires [I5-emptydir] ip.Kind == 2 ==> emptychecked[ip.Inum] || freshinum[ip.Inum] @C04 @C02
+//@   requires [I6-dotdot] ip.Kind == 2 ==> freshinum[ip.Inum] || (exists p uint64 :: nldec[p]) @C04 @C05
 //@   allocates $TXALLOC, struct:struct{}
-//@   modifies ip.Nlink, ip.Kind, ip.Gen, ip.Size, ip.ShrinkSize, ip.blks[*], dirtyinum, wroteinum, abits, muheld, shrinker.ShrinkerSt.nthread, alloctxn.AllocTxn.allocBnums, []uint64@alloctxn.AllocTxn.allocBnums, alloctxn.AllocTxn.freeBnums, []uint64@alloctxn.AllocTxn.freeBnums, alloctxn.AllocTxn.freeInums, []uint64@alloctxn.AllocTxn.freeInums, buf.Buf.dirty, []uint8@buf.Buf.Data, zeroed, tailzeroedto
+//@   modifies ip.Nlink, ip.Kind, ip.Gen, ip.Size, ip.ShrinkSize, ip.blks[*], dirtyinum, wroteinum, abits, muheld, shrinker.ShrinkerSt.nthread, alloctxn.AllocTxn.allocBnums, []uint64@alloctxn.AllocTxn.allocBnums, alloctxn.AllocTxn.freeBnums, []uint64@alloctxn.AllocTxn.freeBnums, alloctxn.AllocTxn.freeInums, []uint64@alloctxn.AllocTxn.freeInums, buf.Buf.dirty, []uint8@buf.Buf.Data, zeroed, tailzeroedto, nldec
 //@   ensures [F1-freed] old(ip.Nlink) == 1 ==> ip.Kind == 0 && ip.Gen == old(ip.Gen) + 1 && ip.Size == 0 @C05 @C08
 //@   ensures [F1-kept] old(ip.Nlink) != 1 ==> ip.Kind == old(ip.Kind) && ip.Gen == old(ip.Gen) && ip.Size == old(ip.Size) @C05
 //@   ensures [S1-synced] !dirtyinum[ip.Inum] && othersClean(ip) @C10
